@@ -17,5 +17,8 @@ func main() {
 	}
 	simkit.Main(
 		&simkit.Check{ID: "C03", Gen: genC03, New: func() any { return &C03Plan{} }, Run: runC03, Shrink: shrinkC03, Desc: descC03},
+		&simkit.Check{ID: "C04", Gen: genC04, New: func() any { return &C04Plan{} }, Run: runC04, Shrink: shrinkC04, Desc: descC04},
+		&simkit.Check{ID: "C05", Gen: genC05, New: func() any { return &C05Plan{} }, Run: runC05, Shrink: shrinkC05, Desc: descC05},
+		&simkit.Check{ID: "C07", Gen: genC07, New: func() any { return &C07Plan{} }, Run: runC07, Shrink: shrinkC07, Desc: descC07},
 	)
 }
